@@ -463,7 +463,9 @@ def run(ck):
     rng = ck.rng
     quick = ck.tier == "quick"
     cap = 4 if quick else 6
-    ncases = 70 if quick else 1200
+    # a broken tie of the cut-out functions themselves is not a verdict: search harder for a concrete failing input
+    widen = 1 if tie3_ok else 4
+    ncases = (70 if quick else 1200) * widen
     cases = [gen_case(rng, cap) + (False,) for _ in range(ncases)]
     # spheres
     for _ in range(10 if quick else 60):
@@ -494,7 +496,7 @@ def run(ck):
         sp = {"lattice": {"kind": "textbook", "abcABG": cell, "baserot": [[1.0, 0.0, 0.0], [0.0, 1.0, 0.0], [0.0, 0.0, 1.0]]}, "title": "tb",
               "atoms": [{"element": "Ni", "xyz": x, "label": "Ni%d" % i, "occupancy": 1.0, "vid": i, "Uiso": 0.005} for i, x in enumerate(pos)]}
         cases.append((sp, radii, False))
-    for sp, radii in sparse_cases(rng, 14 if quick else 80):
+    for sp, radii in sparse_cases(rng, (14 if quick else 80) * widen):
         cases.append((sp, radii, False))
     lines = [model_line(s, r) for s, r, _ in cases]
     outs = common.driver(lines)
@@ -551,6 +553,9 @@ def run(ck):
             fails = [("unexpected:%s" % type(e).__name__, "cut / edit in place / cut again: evaluation failed with %r" % (e,))]
         for key, msg in fails:
             ck.fail("cut:" + key, "makeEllipsoid(%d atoms, radii %r): %s" % (len(spec0["atoms"]), radii, msg), dict(replay, observed=msg))
+    if widen > 1:
+        ck.notes.append("source tie DS.Props.SrcShape broken (%s): search widened x%d" % (
+            ", ".join(tie3_info.get("broken_theorems") or tie3_info.get("failed_modules") or ["translator"]), widen))
     ck.notes.append("call sequences on one parent object (cut, edit atoms in place, cut again): %d" % nseq)
     # sphere = ellipsoid with equal radii (implementation side, exact)
     from diffpy.structure.expansion.makeellipsoid import makeEllipsoid, makeSphere
@@ -570,7 +575,7 @@ def run(ck):
             ck.fail("cut:sphere", "makeSphere(r=%r) differs from makeEllipsoid(r,r,r)" % radii[0],
                     {"kind": "sphere-eq", "input": {"structure": spec, "radii": radii}})
     # findCenter alone, on random (non-block) structures
-    fc_specs = [gen_structure(rng, natoms=rng.choice([1, 2, 3, 5, 8])) for _ in range(30 if quick else 200)]
+    fc_specs = [gen_structure(rng, natoms=rng.choice([1, 2, 3, 5, 8])) for _ in range((30 if quick else 200) * widen)]
     fl = []
     for s in fc_specs:
         lat = s["lattice"]
@@ -623,6 +628,9 @@ def run(ck):
         "an empty structure raises IndexError and a block multiplier < 1 raises ValueError (the source's FIXME for rotated cells): outside the "
         "statement, reproduced by the model, counted in the notes",
         "fresh allocation of the result is the heap model of C15 (supercellH); the oracle checks object identities on CPython",
+        "source tie DS.Props.SrcShape: findCenter / makeEllipsoid / makeSphere are transliterated by translate/src_shape.py (its reading of "
+        "Python is trusted: int indices with negatives from the end, `** 0.5` as sqrt, `sum` from 0, for-loops as folds, IndexError the only "
+        "exception of the subset; math.ceil of a non-finite float raising is not modelled) and proved equal to the model for all inputs",
     ]
     ck.coverage["trusted_base"] += ["harness/c18.py oracle (plain numpy enumeration of lattice sites)", "compiled Lean model driver (DS.Expand.expandHandle)"]
     ck.tie_verdict(tie_ok, tie_info, "lattice.py")
